@@ -56,9 +56,10 @@ LIT_POOL = ["add", "remove", "list", "show", "--verbose", "--force", "-x", "-q",
 SW_HEADS = ["--opt=", "--file=", "-I", "key:", "--level=", "@", "--set-", "of=", "p,"]
 SW_SEPS = [",", ":", "=", "..", "-", "/"]
 NT_NAMES = ["ARG", "REF", "HOST", "USER", "FILE", "ITEM", "THING"]
-DECOR = ["plain", "plain", "plain", "extra_words", "noop_prefix", "and_prefix", "odd_spacing", "newline_inside", "trailing_semicolon"]
+DECOR = ["plain", "plain", "plain", "extra_words", "noop_prefix", "and_prefix", "odd_spacing", "newline_inside", "trailing_semicolon",
+         "multiline_arg", "heredoc_arg"]
 BEHAVIOURS = ["plain", "plain", "plain", "exit_nonzero", "stderr_noise", "empty", "empty_nonzero", "tab_descr", "dups", "spaces", "large", "dash",
-              "exit_and_stderr"]
+              "exit_and_stderr", "prefix_chain"]
 
 
 # ------------------------------------------------------------------ generation
@@ -73,6 +74,7 @@ class Gen:
         self.defs = []         # extra definition statements
         self.used_nt = set()
         self.anys = 0
+        self.subdefs = []      # (name, node): <name> = printed subtree; the occurrence prints as <name>
 
     def lit(self):
         self.nlit += 1
@@ -85,6 +87,11 @@ class Gen:
         deco_args = []
         if decor == "extra_words":
             deco_args = self.rng.sample(["extra", "two  spaces", "x=y", "--flag", "semi;colon", "star*"], self.rng.range(1, 3))
+        elif decor == "multiline_arg":
+            # leading / trailing blanks on the continuation lines are data: "exactly that command text"
+            deco_args = ["first line\n    indented second line  \n\tthird"]
+        elif decor == "heredoc_arg":
+            deco_args = ["  here-doc body, indented \n\n  after a blank line"]
         self.probes.append({"decor": decor, "deco_args": deco_args, "forbidden": forbidden})
         if forbidden:
             self.forbidden.append(k)
@@ -116,30 +123,39 @@ class Gen:
     def sw(self):
         r = self.rng
         leaf = Leaf("sw", parts=[])
-        shape = r.weighted([(5, "LP"), (2, "LPLP"), (2, "PLP")])
+        shape = r.weighted([(5, "LP"), (2, "LPLP"), (2, "PLP"), (3, "LA"), (1, "LALP")])
         head = r.choice(SW_HEADS)
         head = head[:-1] + str(self.nlit + 1) + head[-1] if r.chance(1, 2) else head
         self.nlit += 1
-        parts = []
+
+        def lits():
+            n = r.range(2, 3)
+            self.nlit += 1
+            return ("lits", ["v%d%s%d" % (self.nlit, r.choice(["a", "bq", "z"]), j) for j in range(n)])
         if shape == "LP":
             parts = [("lit", head), ("probe", None)]
         elif shape == "LPLP":
             parts = [("lit", head), ("probe", None), ("lit", r.choice(SW_SEPS)), ("probe", None)]
-        else:
+        elif shape == "PLP":
             parts = [("probe", None), ("lit", r.choice(SW_SEPS)), ("probe", None)]
+        elif shape == "LA":
+            parts = [("lit", head), lits()]            # literal-only word, e.g. --color=(always | never)
+        else:
+            parts = [("lit", head), lits(), ("lit", r.choice(SW_SEPS)), ("probe", None)]
         same = r.chance(1, 3)
         first_k = None
+        first_i = None
         for i, (kind, v) in enumerate(parts):
             if kind == "probe":
                 if same and first_k is not None:
                     parts[i] = ("probe", first_k)
-                    if (id(leaf), 1 if shape != "PLP" else 0) in self.nt_of:
-                        self.nt_of[(id(leaf), i)] = self.nt_of[(id(leaf), 1 if shape != "PLP" else 0)]
+                    if (id(leaf), first_i) in self.nt_of:
+                        self.nt_of[(id(leaf), i)] = self.nt_of[(id(leaf), first_i)]
                 else:
                     k = self.probe_ref((id(leaf), i))
                     parts[i] = ("probe", k)
                     if first_k is None:
-                        first_k = k
+                        first_k, first_i = k, i
         leaf.parts = parts
         return leaf
 
@@ -160,6 +176,15 @@ class Gen:
         return Leaf("lit", text=self.lit())
 
     def expr(self, depth, budget, in_fb=False):
+        n = self._expr(depth, budget, in_fb)
+        # reach the subtree through a definition (so that commands are also "reached through definitions" of any depth)
+        if depth > 0 and self.rng.chance(1, 5) and id(n) not in self.nt_of and not (isinstance(n, Leaf) and n.kind == "any"):
+            name = "%s%d" % (self.rng.choice(["SUB", "GROUP", "OPTS", "TARGET"]), len(self.subdefs))
+            self.nt_of[id(n)] = name
+            self.subdefs.append((name, n))
+        return n
+
+    def _expr(self, depth, budget, in_fb=False):
         r = self.rng
         if depth >= 3 or budget[0] <= 0:
             budget[0] -= 1
@@ -172,7 +197,7 @@ class Gen:
             n = r.range(2, 4)
             kids = []
             for i in range(n):
-                if i > 0 and r.chance(1, 6) and isinstance(kids[-1], Leaf) and kids[-1].kind in ("lit", "probe"):
+                if i > 0 and r.chance(1, 6) and isinstance(kids[-1], Leaf) and kids[-1].kind in ("lit", "probe") and id(kids[-1]) not in self.nt_of:
                     # <_> only right after a plain single item, so that it never shares a point with anything else
                     self.anys += 1
                     kids.append(Leaf("any"))
@@ -192,8 +217,10 @@ class Gen:
 def command_text(k, info, rng_unused=None):
     base = '__probe %d "$@"' % k
     d = info["decor"]
-    if d == "extra_words":
+    if d in ("extra_words", "multiline_arg"):
         return base + "".join(" '%s'" % a for a in info["deco_args"])
+    if d == "heredoc_arg":
+        return base + ' "$(cat <<\'EOT\'\n%s\nEOT\n)"' % info["deco_args"][0]
     if d == "noop_prefix":
         return ": ; " + base
     if d == "and_prefix":
@@ -242,6 +269,10 @@ def assign_behaviours(rng, nprobes):
             lines = [c + ("\tdescr" if rng.chance(1, 2) else "") for c in cands]
         elif kind == "large":
             lines = cands + ["c%dy%05d-%s" % (k, j, "p" * 12) for j in range(3200)]
+        elif kind == "prefix_chain":
+            # one candidate is a proper prefix of another (dev / devel); complete words use the maximal ones only
+            cands = ["c%dx%d" % (k, j) for j in range(n)] + ["c%dx0el" % k]
+            lines = list(cands)
         elif kind == "dash":
             dash_used = True
             lines = rng.sample(["-n", "-e", "-E"], rng.range(1, 3)) + cands
@@ -259,6 +290,8 @@ def gen_case(rng):
     cmdtext = {k: command_text(k, info) for k, info in enumerate(g.probes)}
     name = rng.choice(["cmd", "tool", "my-cmd", "t_1"])
     stmts = ["%s %s;" % (name, show(v, cmdtext, g.nt_of)) for v in variants]
+    for nt, node in g.subdefs:
+        stmts.append("<%s> %s %s;" % (nt, rng.choice(["=", "::="]), show(node, cmdtext, g.nt_of, top=True)))
     for shell, nt, k in g.defs:
         if shell == "plain":
             stmts.append("<%s> = {{{ %s }}};" % (nt, cmdtext[k]))
@@ -285,6 +318,10 @@ def tree_from_json(j):
 
 # ------------------------------------------------------------------ command lines
 
+def maximal(cs):
+    return [c for c in cs if not any(o != c and o.startswith(c) for o in cs)]
+
+
 def word_for(leaf, beh, rng):
     """A complete word matched by `leaf` (None if impossible: probe without candidates)."""
     if leaf.kind == "lit":
@@ -298,8 +335,12 @@ def word_for(leaf, beh, rng):
     for kind, v in leaf.parts:
         if kind == "lit":
             out += v
+        elif kind == "lits":
+            out += rng.choice(v)
         else:
-            cs = [c for c in cands_of(beh, v) if c]
+            # inside a word only candidates that are not a proper prefix of another one are used as complete values
+            # (the shorter of two prefix-related candidates is C12's overlapping-alternatives territory)
+            cs = maximal([c for c in cands_of(beh, v) if c])
             if not cs:
                 return None
             out += rng.choice(cs)
